@@ -52,8 +52,10 @@ ASSUMPTIONS = [
 OUTSIDE = ["histories containing the same point twice (scikit-learn's GP regression is singular on duplicated points with equal losses: remark in DESIGN.md)", "dims > 2 (quick) / 3 (thorough)", "floating rounding of the step arithmetic (an exact-real claim; the replay runs binary64)", "histories longer than 3 rows"]
 REQUIRED_LABELS = ["shape", "on_grid"]
 
-# (width, precision): aligned, non-aligned, non-aligned small
-CONFIGS = {"aligned": (Fraction(1), Fraction(1, 4)), "nonaligned": (Fraction(1), Fraction(3, 10)), "short": (Fraction(7, 10), Fraction(1, 4)), "wide": (Fraction(1000), Fraction(300))}
+# (width, precision): aligned, non-aligned, non-aligned small, wide, overshoot
+CONFIGS = {"aligned": (Fraction(1), Fraction(1, 4)), "nonaligned": (Fraction(1), Fraction(3, 10)), "short": (Fraction(7, 10), Fraction(1, 4)), "wide": (Fraction(1000), Fraction(300)),
+           # the range falls short of a multiple of the precision by less than the 1e-7 end-point tolerance: the top grid value lies ABOVE the upper bound
+           "overshoot": (Fraction(1) - Fraction(5, 10**8), Fraction(1, 4))}
 
 
 def bounds(tier):
@@ -269,6 +271,9 @@ def cases(tier, seed):
     cs.append(case("bestbatch", ("aligned", "nonaligned"), 1, 2, ncalls=1))
     cs.append(case("bestbatch", ("aligned",), 2, 2, ncalls=1))
     cs.append(case("bestbatch", ("nonaligned",), 1, 3, ncalls=1))
+    cs.append(case("bestbatch", ("overshoot",), 1, 2, ncalls=1))
+    cs.append(case("uniform", ("overshoot", "aligned"), 2, 0))
+    cs.append(case("halton", ("overshoot",), 2, 0, 0, 1))
     for k in ("pso", "pso-global"):
         cs.append(case(k, ("nonaligned",), 1, 2))
         cs.append(case(k, ("short",), 1, 3))
